@@ -64,7 +64,7 @@ method("_complete_batch_send", "(%s, resp: Optional[Ref_Failure]) -> None" % SEL
 
 method("_cancel_outstanding", "(%s) -> None" % SELF, props=["C19"], modifies=ALL, inline_only=True)
 
-method("stop", "(%s) -> Ref_Deferred" % SELF, props=["C19", "C01"],
+method("stop", "(%s) -> Optional[Ref_Deferred]" % SELF, props=["C19", "C01"],
        checkpoints={"fire:cancel#1": {"stopping-set-before-anything-is-cancelled[C19]": "self.stopping"},
                     "call:_cancel_outstanding#1": {"still-stopping[C19]": "self.stopping"}})
 
@@ -93,14 +93,14 @@ hclosure("_deliver_result", "(d_list: Any, result: Any = None) -> None", inline_
          requires=["ack_ok(result, self.req_acks)"])
 
 hclosure("_do_retry", "(payloads: List[ProduceRequest]) -> Ref_Deferred",
-         checkpoints={"fire:addBoth#1": {
+         checkpoints={"call:addBoth#1": {
              # C09: the attempt is counted BEFORE the response handler can run (the Deferred may already have failed)
              "attempt-counted-before-handlers[C09]": "self._req_attempts == old(self._req_attempts) + 1"}},
          ensures={"one-send[C09]": "n_events('ProduceRequest') == 1"})
 
 hclosure("_check_retry_payloads", "(failed_payloads_with_errs: List[Tuple[ProduceRequest, Ref_Failure]]) -> Optional[Ref_Deferred]",
          raises={"KeyError": "True"}, locals={"reset_topics": "List[str]"},
-         loops={"for#1": dict(index="i", inv=["self._req_attempts >= self._max_attempts"]),
+         loops={"for#1": dict(index="i", inv=["True"]),
                 "for#2": dict(index="i", inv=["True"])},
          checkpoints={"call:callLater#1": {
              "retry-only-below-limit[C09]": "self._req_attempts < self._max_attempts",
